@@ -308,6 +308,20 @@ class Run:
         self.extra.setdefault('correspondence', {})[name] = dict(cases=len(cases), disagreements=len(failing), model_nontrivial=nt)
         return failing, nt
 
+    def guard(self, fn):
+        """Run the body of a check; an exception escaping it (the implementation raised where the harness expected it to
+        work, or the harness itself broke) is reported as a broken tie, never as a silent pass."""
+        import traceback
+        try:
+            fn(self)
+        except SystemExit:
+            raise
+        except BaseException as ex:   # noqa: B902
+            tb = traceback.format_exc()
+            print(tb, file=sys.stderr)
+            self.add_break('correspondence-break', f'the check could not complete: {type(ex).__name__}: {str(ex)[:200]}', tb[-2500:])
+        self.finish()
+
     # ---------------------------------------------------------------------------------- verdict
     def add_break(self, kind, what, detail=None):
         self.broken.append(dict(kind=kind, what=what, detail=detail))
